@@ -659,7 +659,7 @@ def streams(tier, rng):
             sn = min(rest, 255); dn = min(rest - sn, 255)
             a = [ids, flags, [1, 3, 5], [1] + _nm(sn), [1] + _nm(dn), [1, k]] + [[2] + _val(255) for _ in range(k)]
             cases.append((1354, a + [[]]))
-    yield "exh_sizes_metadata", "exact", cases
+    yield "sizes_metadata", "exact", cases
     cases = []
     for n in range(0, 257):                      # fault-location length; first-name length of one response
         if big or n <= 16 or n >= 246 or n % 3 == 0 or n % 64 in (63, 1):
@@ -689,7 +689,7 @@ def streams(tier, rng):
             fault = [1] + _val(rest - 2) if rest >= 2 else [0]
             a = [ids, flags, [4, 0, 1], fault, [len(resps)]] + resps
             cases.append((1344, a + [[]]))
-    yield "exh_sizes_finished", "exact", cases
+    yield "sizes_finished", "exact", cases
     # 8. random PDUs: pack, round trip, round trip with look-alike suffixes, decode of layout ++ suffix
     cases = []
     for _ in range(6000 if big else 800):
